@@ -14,7 +14,7 @@ import (
 // FaultEv is one unrequested loss of the client's session.
 type FaultEv struct {
 	Kind    string `json:"kind"`     // srv-finish, srv-fail, fin, rst, half, garbage, nonenv, oversized, restart, srv-close
-	Moment  int    `json:"moment"`   // 0 idle, 1 while the client is sending, 2 while the server is pushing, 3 during the re-establishment after the previous fault
+	Moment  int    `json:"moment"`   // 0 idle, 1 while the client is sending, 2 while the server is pushing, 3 during the re-establishment after the previous fault, 4 while a client send is stuck in the middle of its write (the server has stopped reading)
 	QuietMs int    `json:"quiet_ms"` // time between the fault and the recovery probe
 }
 
@@ -36,7 +36,7 @@ func genC19(t *simrt.Tape, tier string) interface{} {
 	p.Cli.ReadLimit = 4096
 	FixSelector(p.Conf.Listeners[0], &p.Cli)
 	for i := 1 + t.Draw(3); i > 0; i-- {
-		p.Faults = append(p.Faults, FaultEv{Kind: c19Kinds[t.Draw(len(c19Kinds))], Moment: t.Draw(4), QuietMs: []int{0, 10, 1000, 7000}[t.Draw(4)]})
+		p.Faults = append(p.Faults, FaultEv{Kind: c19Kinds[t.Draw(len(c19Kinds))], Moment: t.Draw(5), QuietMs: []int{0, 10, 1000, 7000}[t.Draw(4)]})
 	}
 	return p
 }
@@ -167,6 +167,26 @@ func runC19(w *World, pi interface{}) {
 					}
 				}
 			}()
+		case 4:
+			bg.Set()
+			// (not under TLS: crypto/tls serialises an alert it wants to send behind the stuck write
+			// with a sync.Mutex, on which a goroutine does not block durably - DESIGN.md, limits)
+			if link != nil && (kind == "tcp" || kind == "ws") {
+				// the server stops reading and the window is small: a send with a context far beyond
+				// the recovery bound gets stuck in the middle of its write, and stays there
+				link.AB.SetCapacity(64)
+				link.AB.StallFor(3 * time.Hour)
+				w.Count("stalled-send-at-the-loss")
+				go func() {
+					txt := lime.TextDocument(strings.Repeat("s", 3000))
+					m := &lime.Message{}
+					m.SetContent(&txt).SetID(fmt.Sprintf("stuck%d", round))
+					sctx, scancel := context.WithTimeout(context.Background(), 2*time.Hour)
+					defer scancel()
+					hc.SendMessage(sctx, m)
+				}()
+				time.Sleep(200 * time.Millisecond)
+			}
 		default:
 			bg.Set()
 		}
@@ -313,7 +333,7 @@ func init() {
 		PanicRule:    "C19.panic",
 		LivelockRule: "C19.listener-busy-loop",
 		Rule: "plans = (real high-level Client with background listener, reconnect loop and back-off on the fake clock, against a real Server over tcp/tcp+tls/ws/wss/in-process; 1-3 rounds of an unrequested loss: server-side finish or fail, server-side close, FIN, RST, half-close, " +
-			"undecodable bytes, JSON that is no envelope, an envelope above the client's read limit, server restart; landing while idle, while the client is sending, while the server is pushing, or during the re-establishment after the previous loss; quiet period 0-7 s); " +
+			"undecodable bytes, JSON that is no envelope, an envelope above the client's read limit, server restart; landing while idle, while the client is sending, while the server is pushing, during the re-establishment after the previous loss, or while a client send is stuck in the middle of its write behind a server that stopped reading; quiet period 0-7 s); " +
 			"oracle once faults stop: SendMessage succeeds within 120 s on a session the server serves, a pushed message reaches the registered handler, every successful send was received, no busy loop (steps at one simulated instant), no panic; " +
 			"non-trivial = first session established; distinct = distinct (plan JSON, event-log hash)",
 	})
